@@ -631,6 +631,12 @@ func (s *IndexedState) remHooks(ctx *Context) error {
 		defer s.withoutPrivilege(ctx)
 		for id := range s.IdToFact {
 			err := s.remHook(ctx, s, id)
+			if _, gone := err.(*NotFoundError); gone {
+				// The fact had expired, and the hook's look at
+				// it removed it.  Nothing to tell the hook then,
+				// and no reason not to clear the rest.
+				continue
+			}
 			if err != nil {
 				Log(ERROR, ctx, "IndexedState.Clear", "state", s.Name, "error", err,
 					"id", id, "when", "remHook")
